@@ -9,55 +9,55 @@ verus! {
 //@@ unit sweeper_delete_one loopbody src/storage/engine.rs StorageEngine::expiration_cleanup_loop "for key in expired_keys"
 fn sweeper_delete_one(engine: &StorageEngine, shard_guard: &mut DatabaseShard, key: Vec<u8>)
     ensures
-        step_ok(*old(shard_guard), *final(shard_guard), key),
+        step_ok(sv(*old(shard_guard)), sv(*final(shard_guard)), key),
         // never spurious: if the key disappeared, its stored deadline had passed
-        old(shard_guard).data@.contains_key(key) && !final(shard_guard).data@.contains_key(key) ==> expired(old(shard_guard).data@[key]),
+        sv(*old(shard_guard)).data.contains_key(key) && !sv(*final(shard_guard)).data.contains_key(key) ==> expired(sv(*old(shard_guard)).data[key]),
         // a key that stays is untouched
-        final(shard_guard).data@.contains_key(key) ==> unchanged(*old(shard_guard), *final(shard_guard)),
+        sv(*final(shard_guard)).data.contains_key(key) ==> unchanged(sv(*old(shard_guard)), sv(*final(shard_guard))),
         // a candidate whose stored deadline has passed is removed, from the key space and from the index, and marked for WATCH
-        old(shard_guard).data@.contains_key(key) && expired(old(shard_guard).data@[key]) ==> !final(shard_guard).data@.contains_key(key)
-            && !final(shard_guard).expiring_keys@.contains_key(key) && marks(*final(shard_guard)).contains(key@),
+        sv(*old(shard_guard)).data.contains_key(key) && expired(sv(*old(shard_guard)).data[key]) ==> !sv(*final(shard_guard)).data.contains_key(key)
+            && !sv(*final(shard_guard)).exp.contains_key(key) && marks(sv(*final(shard_guard))).contains(key@),
 //@@ body
 //@@ end
 
 
 // ======================= RENAME (both branches) =========================
 /// two-key frame + WATCH + index contract for a move of `src` to `dst` inside ONE shard
-spec fn move_ok(o: DatabaseShard, f: DatabaseShard, src: Vec<u8>, dst: Vec<u8>) -> bool {
-    &&& f.data@.remove(src).remove(dst) =~= o.data@.remove(src).remove(dst)
-    &&& f.expiring_keys@.remove(src).remove(dst) =~= o.expiring_keys@.remove(src).remove(dst)
+spec fn move_ok(o: SV, f: SV, src: Vec<u8>, dst: Vec<u8>) -> bool {
+    &&& f.data.remove(src).remove(dst) =~= o.data.remove(src).remove(dst)
+    &&& f.exp.remove(src).remove(dst) =~= o.exp.remove(src).remove(dst)
     &&& marks(f).subset_of(marks(o).insert(src@).insert(dst@))
     &&& marks(o).subset_of(marks(f))
     &&& (index_ok(o) ==> index_ok(f))
 }
 
-// same shard: the statements under the shard's write lock
+// same shard: the statements under the shard's write lock (a source key past its deadline is purged first = missing)
 //@@ unit rename_same_shard stmts src/storage/engine.rs StorageEngine::rename "let mut shard_guard = old_shard.write().unwrap();"
 //@@   rewrite R2
 fn rename_same_shard(shard_guard: &mut DatabaseShard, old_key: &[u8], new_key: Key) -> (r: Result<()>)
     ensures
-        move_ok(*old(shard_guard), *final(shard_guard), key_of(old_key@), new_key),
-        // missing source: refused, nothing changes
-        !old(shard_guard).data@.contains_key(key_of(old_key@)) ==> r is Err && unchanged(*old(shard_guard), *final(shard_guard)),
+        move_ok(eff(*old(shard_guard), key_of(old_key@)), sv(*final(shard_guard)), key_of(old_key@), new_key),
+        // missing (or expired) source: refused, nothing else changes
+        !eff(*old(shard_guard), key_of(old_key@)).data.contains_key(key_of(old_key@)) ==> r is Err && unchanged(eff(*old(shard_guard), key_of(old_key@)), sv(*final(shard_guard))),
         // the value AND its TTL travel to the new name; both names are marked for WATCH
-        old(shard_guard).data@.contains_key(key_of(old_key@)) ==> r is Ok
-            && final(shard_guard).data@.contains_key(new_key) && final(shard_guard).data@[new_key] == old(shard_guard).data@[key_of(old_key@)]
-            && (key_of(old_key@) != new_key ==> !final(shard_guard).data@.contains_key(key_of(old_key@)))
-            && marks(*final(shard_guard)).contains(old_key@) && marks(*final(shard_guard)).contains(new_key@),
+        eff(*old(shard_guard), key_of(old_key@)).data.contains_key(key_of(old_key@)) ==> r is Ok
+            && sv(*final(shard_guard)).data.contains_key(new_key) && sv(*final(shard_guard)).data[new_key] == old(shard_guard).data@[key_of(old_key@)]
+            && (key_of(old_key@) != new_key ==> !sv(*final(shard_guard)).data.contains_key(key_of(old_key@)))
+            && marks(sv(*final(shard_guard))).contains(old_key@) && marks(sv(*final(shard_guard))).contains(new_key@),
 //@@ body
 //@@ end
 
 // different shards: the statements after both write locks are held
-//@@ unit rename_cross_shard stmts src/storage/engine.rs StorageEngine::rename "if let Some(stored_value) = old_guard.data.remove(old_key)"
+//@@ unit rename_cross_shard stmts src/storage/engine.rs StorageEngine::rename "old_guard.purge_if_expired(old_key);"
 fn rename_cross_shard(old_guard: &mut DatabaseShard, new_guard: &mut DatabaseShard, old_key: &[u8], new_key: Key) -> (r: Result<()>)
     ensures
-        step_ok(*old(old_guard), *final(old_guard), key_of(old_key@)),
-        step_ok(*old(new_guard), *final(new_guard), new_key),
-        !old(old_guard).data@.contains_key(key_of(old_key@)) ==> r is Err && unchanged(*old(old_guard), *final(old_guard)) && unchanged(*old(new_guard), *final(new_guard)),
-        old(old_guard).data@.contains_key(key_of(old_key@)) ==> r is Ok
-            && !final(old_guard).data@.contains_key(key_of(old_key@))
-            && final(new_guard).data@.contains_key(new_key) && final(new_guard).data@[new_key] == old(old_guard).data@[key_of(old_key@)]
-            && marks(*final(old_guard)).contains(old_key@) && marks(*final(new_guard)).contains(new_key@),
+        step_ok(eff(*old(old_guard), key_of(old_key@)), sv(*final(old_guard)), key_of(old_key@)),
+        step_ok(sv(*old(new_guard)), sv(*final(new_guard)), new_key),
+        !eff(*old(old_guard), key_of(old_key@)).data.contains_key(key_of(old_key@)) ==> r is Err && unchanged(eff(*old(old_guard), key_of(old_key@)), sv(*final(old_guard))) && unchanged(sv(*old(new_guard)), sv(*final(new_guard))),
+        eff(*old(old_guard), key_of(old_key@)).data.contains_key(key_of(old_key@)) ==> r is Ok
+            && !sv(*final(old_guard)).data.contains_key(key_of(old_key@))
+            && sv(*final(new_guard)).data.contains_key(new_key) && sv(*final(new_guard)).data[new_key] == old(old_guard).data@[key_of(old_key@)]
+            && marks(sv(*final(old_guard))).contains(old_key@) && marks(sv(*final(new_guard))).contains(new_key@),
 //@@ body
 //@@ end
 
